@@ -10,6 +10,7 @@ import (
 	"crypto/aes"
 	"math/big"
 
+	"github.com/pkg/errors"
 	"github.com/xelaj/go-dry"
 )
 
@@ -76,11 +77,26 @@ func doAES256IGEdecrypt(data, out, key, iv []byte) error {
 }
 
 // DecryptMessageWithTempKeys дешифрует сообщение паролем, которые получены в процессе обмена ключами диффи хеллмана
+//
+// It panics if message can't be decrypted. Use TryDecryptMessageWithTempKeys if message is received from network.
 func DecryptMessageWithTempKeys(msg []byte, nonceSecond, nonceServer *big.Int) []byte {
+	res, err := TryDecryptMessageWithTempKeys(msg, nonceSecond, nonceServer)
+	check(err)
+	return res
+}
+
+// TryDecryptMessageWithTempKeys is DecryptMessageWithTempKeys which returns an error instead of panic, if message
+// has wrong size or its SHA1 prefix doesn't match its content
+func TryDecryptMessageWithTempKeys(msg []byte, nonceSecond, nonceServer *big.Int) ([]byte, error) {
 	key, iv := generateTempKeys(nonceSecond, nonceServer)
 	decodedWithHash := make([]byte, len(msg))
 	err := doAES256IGEdecrypt(msg, decodedWithHash, key, iv)
-	check(err)
+	if err != nil {
+		return nil, err
+	}
+	if len(decodedWithHash) < 20 { //nolint:gomnd size of sha1
+		return nil, ErrDataTooSmall
+	}
 
 	// decodedWithHash := SHA1(answer) + answer + (0-15 рандомных байт); длина должна делиться на 16;
 	decodedHash := decodedWithHash[:20]
@@ -89,11 +105,11 @@ func DecryptMessageWithTempKeys(msg []byte, nonceSecond, nonceServer *big.Int) [
 	// режем последние 0-15 байт ориентируюясь по хешу
 	for i := len(decodedMessage); i > len(decodedMessage)-16 && i >= 0; i-- {
 		if bytes.Equal(decodedHash, dry.Sha1Byte(decodedMessage[:i])) {
-			return decodedMessage[:i]
+			return decodedMessage[:i], nil
 		}
 	}
 
-	panic("couldn't trim message: hashes incompatible on more than 16 tries")
+	return nil, errors.New("couldn't trim message: hashes incompatible on more than 16 tries")
 }
 
 // EncryptMessageWithTempKeys шифрует сообщение паролем, которые получены в процессе обмена ключами диффи хеллмана
